@@ -61,8 +61,11 @@ def lists_quadratic(rng, quick):
           quad(3, -2, 1, 2), quad(0, 1, 2, 2)]
     S5 = [quad(1, 1, 2, 5), quad(1, -1, 2, 5), quad(-1, 0, 1, 5), quad(3, 1, 2, 5), quad(0, 1, 1, 5), quad(5, 0, 1, 5),
           quad(2, 1, 1, 5), quad(2, -1, 1, 5)]
+    # Eisenstein numbers: roots of unity of order 3 and 6, sqrt(-3), and rationals next to them
+    E3 = [quad(1, 1, 2, -3), quad(1, -1, 2, -3), quad(-1, 1, 2, -3), quad(-1, -1, 2, -3), quad(0, 1, 1, -3), quad(3, 1, 2, -3),
+          quad(-1, 0, 1, -3), quad(2, 0, 1, -3), quad(3, 0, 1, -3), quad(1, 1, 1, -3)]
     out = []
-    for d, pool_ in ((-1, G), (2, S2), (5, S5)):
+    for d, pool_ in ((-1, G), (2, S2), (5, S5), (-3, E3)):
         for k in (1, 2, 3):
             for c in itertools.product(pool_, repeat=k):
                 if all(x["b"] == 0 for x in c):
@@ -77,8 +80,12 @@ def lists_quadratic(rng, quick):
              {"d": -1, "bases": [quad(20, 1, 20, -1), quad(20, -1, 20, -1), quad(401, 0, 400, -1)]},
              {"d": -1, "bases": [quad(10, 1, 10, -1), quad(10, -1, 10, -1), quad(101, 0, 100, -1)]},
              {"d": 10010, "bases": [quad(1001, 0, 1000, 10010), quad(0, 1, 100, 10010)]},
-             {"d": 2, "bases": [quad(3, 0, 2, 2), quad(0, 3, 2 * 1, 2), quad(9, 0, 2, 2)]}]
-    return fixed + out[:(40 if quick else 600)]
+             {"d": 2, "bases": [quad(3, 0, 2, 2), quad(0, 3, 2 * 1, 2), quad(9, 0, 2, 2)]},
+             # roots of unity whose order needs a long generator (6, 3, 12) and a large rational power next to sqrt(2)
+             {"d": -3, "bases": [quad(1, 1, 2, -3)]}, {"d": -3, "bases": [quad(-1, 1, 2, -3)]},
+             {"d": -3, "bases": [quad(1, 1, 2, -3), quad(-1, 0, 1, -3)]}, {"d": -3, "bases": [quad(1, 1, 2, -3), quad(1, -1, 2, -3)]},
+             {"d": -3, "bases": [quad(0, 1, 1, -3), quad(3, 0, 1, -3)]}, {"d": -3, "bases": [quad(3, 1, 2, -3), quad(3, 0, 1, -3)]}]
+    return fixed + out[:(60 if quick else 800)]
 
 
 def solve_coeffs(basis, e):
